@@ -77,6 +77,14 @@ struct KRow {
     bool defctor;
     bool (*min_buf)(Bytes&);            // the MinBuf<K> wire image, if the harness has one
 };
+// every class of the table by RTTI (names for objects whose class has no K row: Dot11ManagementFrame, Dot11ControlTA made by slicing)
+static std::vector<std::pair<const std::type_info*, std::string> > class_names() {
+    std::vector<std::pair<const std::type_info*, std::string> > v;
+#define TINS_PDU_CLASS(Q, ID, ABSTRACT, PUBCTOR, DEFCTOR, BUFCTOR, FLAGGED) v.push_back(std::make_pair(&typeid(Q), short_name(#Q)));
+#include "classes.inc"
+#undef TINS_PDU_CLASS
+    return v;
+}
 template <class K, int BUF> struct BufMaker { static Tins::PDU* make(const uint8_t*, uint32_t) { return 0; } static const bool has = false; };
 template <class K> struct BufMaker<K, 1> { static Tins::PDU* make(const uint8_t* p, uint32_t n) { return new K(p, n); } static const bool has = true; };
 template <class K, class = void> struct HasMinBuf { static bool get(Bytes&) { return false; } };
@@ -123,6 +131,67 @@ static std::vector<SRow> s_rows() {
     return v;
 }
 
+// ---------------------------------------------------------------- origin of an object (generated: TINS_PDU_SLICE + every K onto itself)
+// From an object o of class K (possibly looked up before): a B made by slicing copy / copy-assignment / clone() of the sliced copy /
+// move-construction of it, B a concrete copy-constructible public base of K -- or B = K (same-class copy, assignment, clone, move, o itself).
+// The result IS a B and must answer like one for every T.
+struct ORow {
+    std::string kname, bname;
+    bool self;   // B == K
+    Tins::PDU* (*make)(Tins::PDU* o, Tins::PDU* fresh, int op);   // new object; o and fresh stay owned by the caller
+};
+static const char* const ORIGIN_OPS[] = {"copy", "assign", "clone", "move", "self"};
+template <class K, class B> static Tins::PDU* origin_make(Tins::PDU* o, Tins::PDU* fresh, int op) {
+    const B& asb = *static_cast<K*>(o);
+    switch (op) {
+        case 0: return new B(asb);                                                            // B sliced(o)
+        case 1: { B* t = new B(static_cast<const B&>(*static_cast<K*>(fresh))); *t = asb; return t; }   // B assigned; assigned = o
+        case 2: { B tmp(asb); return tmp.clone(); }                                           // sliced.clone()
+        case 3: { B tmp(asb); return new B(std::move(tmp)); }                                 // B moved(std::move(sliced))
+        default: return 0;
+    }
+}
+static std::vector<ORow> o_rows() {
+    std::vector<ORow> v;
+#define TINS_PDU_SLICE(Q, ID, QB, IDB) v.push_back(ORow{short_name(#Q), short_name(#QB), false, &origin_make<Q, QB>});
+#define TINS_PDU_CONCRETE(Q, ID, DEFCTOR, BUFCTOR) v.push_back(ORow{short_name(#Q), short_name(#Q), true, &origin_make<Q, Q>});
+#define TINS_PDU_CACHEABLE(Q, ID) \
+    v.push_back(ORow{"PDUCacher<" + short_name(#Q) + ">", "PDUCacher<" + short_name(#Q) + ">", true, &origin_make<Tins::PDUCacher<Q>, Tins::PDUCacher<Q> >});
+#include "classes.inc"
+#undef TINS_PDU_SLICE
+#undef TINS_PDU_CONCRETE
+#undef TINS_PDU_CACHEABLE
+    return v;
+}
+
+// ---------------------------------------------------------------- empty states (generated: TINS_PDU_EMPTY_CTOR / _EMPTY_SETTER / _CLEARABLE)
+struct ERow {
+    std::string kname, how;                      // how: ctor-B0 | ctor-STR | ctor-VEC | ctor-IT | set:Declaring::name | clear:Declaring::name
+    std::function<Tins::PDU*()> create;          // constructors handed nothing (0 if the constructor refuses)
+    std::function<void(Tins::PDU*)> mutate;      // or: a mutation of an existing object (default / minimal-buffer object of K)
+};
+static const uint8_t g_nothing[1] = {0};
+template <class K, class ARG> struct EmptyCtor {
+    static Tins::PDU* B0() { return new K(g_nothing, 0u); }
+    static Tins::PDU* STR() { return new K(std::string()); }
+    static Tins::PDU* VEC() { return new K(ARG()); }
+    static Tins::PDU* IT() { return new K(g_nothing, g_nothing); }
+};
+static std::vector<ERow> e_rows() {
+    std::vector<ERow> v;
+#define TINS_PDU_EMPTY_CTOR(Q, ID, KIND, ARG) \
+    v.push_back(ERow{short_name(#Q), "ctor-" #KIND, []() -> Tins::PDU* { try { return EmptyCtor<Q, ARG>::KIND(); } catch (std::exception&) { return 0; } }, nullptr});
+#define TINS_PDU_EMPTY_SETTER(Q, ID, DQ, NAME, ARG) \
+    v.push_back(ERow{short_name(#Q), "set:" + short_name(#DQ) + "::" #NAME, nullptr, [](Tins::PDU* o) { static_cast<DQ&>(*static_cast<Q*>(o)).NAME(ARG()); }});
+#define TINS_PDU_CLEARABLE(Q, ID, DQ, NAME) \
+    v.push_back(ERow{short_name(#Q), "clear:" + short_name(#DQ) + "::" #NAME, nullptr, [](Tins::PDU* o) { static_cast<DQ&>(*static_cast<Q*>(o)).NAME().clear(); }});
+#include "classes.inc"
+#undef TINS_PDU_EMPTY_CTOR
+#undef TINS_PDU_EMPTY_SETTER
+#undef TINS_PDU_CLEARABLE
+    return v;
+}
+
 struct Elem { Tins::PDU* p; Tins::PDU* unwrapped; std::string kname; bool wrapper; };
 struct Chain {
     std::vector<Elem> e;
@@ -142,7 +211,17 @@ struct TRow {
     int flag;
     const std::type_info* ti;
     void (*check)(const Chain&, const TRow&, Outcome&);
+    void (*touch)(Tins::PDU*);   // a look-up and a cast whose results are thrown away (history: "has been asked for T before")
 };
+template <class T> static void touch(Tins::PDU* p) {
+    const Tins::PDU* cp = p;
+    volatile const void* sink;
+    sink = p->find_pdu<T>();
+    sink = cp->find_pdu<T>();
+    sink = Tins::tins_cast<T*>(p);
+    sink = Tins::tins_cast<const T*>(cp);
+    (void)sink;
+}
 
 // signatures name the helper family (search = the four find_pdu/rfind_pdu variants, which share one code path; cast = the three
 // tins_cast variants); the detail names the individual helpers
@@ -225,7 +304,7 @@ static void check(const Chain& c, const TRow& t, Outcome& out) {
 }
 
 template <class T> static TRow t_row(const std::string& name) {
-    return TRow{name, Unwrap<T>::wrapper, (int)T::pdu_flag, &typeid(T), &check<T>};
+    return TRow{name, Unwrap<T>::wrapper, (int)T::pdu_flag, &typeid(T), &check<T>, &touch<T>};
 }
 static std::vector<TRow> t_rows() {
     std::vector<TRow> v;
@@ -255,11 +334,25 @@ static int n_classes_total() {
 static std::vector<KRow> KR;
 static std::vector<TRow> TR;
 static std::vector<SRow> SR;
+static std::vector<ORow> OR_;
+static std::vector<ERow> ER;
+static std::vector<std::pair<const std::type_info*, std::string> > NAMES;
 
 static std::string demangled_class(const Tins::PDU& p) {
     // name of the dynamic class as the table spells it
     for (auto& k : KR) if (*k.ti == typeid(p)) return k.name;
+    for (auto& n : NAMES) if (*n.first == typeid(p)) return n.second;
     return std::string("?") + typeid(p).name();
+}
+
+// history: look-ups / casts performed on an object before it is copied, mutated or evaluated.  "-" none, "*" every T, else one T
+static void warm(Tins::PDU* p, const std::string& w) {
+    if (w == "-" || w.empty()) return;
+    for (auto& t : TR) if (w == "*" || t.name == w) t.touch(p);
+}
+static Elem elem_of(Tins::PDU* p) {
+    for (auto& k : KR) if (*k.ti == typeid(*p)) return Elem{p, k.unwrap(p), k.name, k.wrapper};
+    return Elem{p, p, demangled_class(*p), false};
 }
 
 // element spec: a K name, or @dot11:HH (Dot11::from_bytes on a 128-byte frame whose first byte is HH),
@@ -285,7 +378,30 @@ static Tins::PDU* build_elem(const std::string& spec, Elem& e) {
         e = Elem{p, p, demangled_class(*p), false};
         return p;
     }
-    // K@b:HEX  = K's own (buffer, size) constructor on that buffer;  K@s:Declaring::setter=V = default K, then that setter
+    // K!B!op!warm = an object of class B made from a K that was looked up before (warm = - | * | T): op copy (slicing copy when B is a
+    //               base), assign, clone, move; with B = K also op self (the looked-up object itself)
+    size_t ex = spec.find('!');
+    if (ex != std::string::npos) {
+        std::vector<std::string> f;
+        for (size_t a = 0;;) { size_t b = spec.find('!', a); f.push_back(spec.substr(a, b == std::string::npos ? b : b - a)); if (b == std::string::npos) break; a = b + 1; }
+        if (f.size() != 4) return 0;
+        int op = -1;
+        for (int i = 0; i < 5; ++i) if (f[2] == ORIGIN_OPS[i]) op = i;
+        const KRow* k = 0;
+        for (auto& kr : KR) if (kr.name == f[0]) k = &kr;
+        const ORow* orow = 0;
+        for (auto& r : OR_) if (r.kname == f[0] && r.bname == f[1]) orow = &r;
+        if (!k || !orow || op < 0 || (op == 4 && !orow->self)) return 0;
+        std::unique_ptr<Tins::PDU> o(k->make()), fresh(k->make());
+        warm(o.get(), f[3]);
+        Tins::PDU* r = op == 4 ? o.release() : orow->make(o.get(), fresh.get(), op);
+        if (!r) return 0;
+        e = elem_of(r);
+        return r;
+    }
+    // K@b:HEX  = K's own (buffer, size) constructor on that buffer;  K@s:Declaring::setter=V = default K, then that setter;
+    // K@S:...  = the same after every T was looked up on the default object;  K@e:how = K in an empty state (ERow), K@E:how = the
+    // mutation applied to an object that was looked up before
     size_t at = spec.find('@');
     std::string kn = at == std::string::npos ? spec : spec.substr(0, at);
     for (auto& k : KR)
@@ -297,7 +413,20 @@ static Tins::PDU* build_elem(const std::string& spec, Elem& e) {
                 Bytes b = unhex(spec.substr(at + 3));
                 try { p = k.from_buf(b.data(), (uint32_t)b.size()); } catch (std::exception&) { p = 0; }
                 if (p) p->inner_pdu((Tins::PDU*)0);
-            } else if (spec.compare(at, 3, "@s:") == 0) {
+            } else if (spec.compare(at, 3, "@e:") == 0 || spec.compare(at, 3, "@E:") == 0) {
+                std::string how = spec.substr(at + 3);
+                for (auto& er : ER)
+                    if (er.kname == kn && er.how == how) {
+                        if (er.create) p = er.create();
+                        else {
+                            p = k.make();
+                            if (spec[at + 1] == 'E') warm(p, "*");
+                            try { er.mutate(p); } catch (std::exception&) { delete p; p = 0; }
+                        }
+                        break;
+                    }
+                if (p) p->inner_pdu((Tins::PDU*)0);
+            } else if (spec.compare(at, 3, "@s:") == 0 || spec.compare(at, 3, "@S:") == 0) {
                 size_t eq = spec.rfind('=');
                 if (eq == std::string::npos) return 0;
                 std::string sn = spec.substr(at + 3, eq - at - 3);
@@ -305,6 +434,7 @@ static Tins::PDU* build_elem(const std::string& spec, Elem& e) {
                 for (auto& sr : SR)
                     if (sr.kname == kn && sr.sname == sn) {
                         p = k.make();
+                        if (spec[at + 1] == 'S') warm(p, "*");
                         try { sr.apply(p, v); } catch (std::exception&) { delete p; p = 0; }
                         break;
                     }
@@ -422,18 +552,20 @@ static int eval_chain(const std::string& spec, const std::string& stage, const s
 //                  the same + 64 zero bytes, 128 zero bytes and the MinBuf image, with the leading bytes swept;
 //   setter states: a default object after ONE call of a public small-value setter (generated table), argument swept.
 // Lazy mode (see check()): one set_case / sanitizer window per object, not per T.
+static std::set<std::string> g_state_classes;   // dynamic classes of the objects evaluated by the state / origin sweeps
 static std::set<uint64_t> g_state_ids;   // distinct (class, outcome vector over all T): > #classes iff identity depends on state
 
-static int eval_state(Tins::PDU* obj, const KRow& k, const std::string& spec, const std::string& stage, bool verbose = false) {
+static int eval_state(Tins::PDU* obj, const Elem& el, const std::string& spec, const std::string& stage, bool verbose = false) {
     std::unique_ptr<Tins::PDU> own(obj);
     Chain c;
-    c.e.push_back(Elem{obj, k.unwrap(obj), k.name, k.wrapper});
+    c.e.push_back(el);
     c.spec = spec;
     c.lazy = true;
     set_case(g_index, "cast-table:" + stage, "chain=" + spec);
     Mon::reset();
     int nbad = 0;
-    uint64_t evals = 0, with_result = 0, calls = 0, id = fnv(k.name);
+    uint64_t evals = 0, with_result = 0, calls = 0, id = fnv(el.kname);
+    g_state_classes.insert(el.kname);
     for (auto& t : TR) {
         // plain T rows only: PDUCacher<Y>::pdu_flag IS Y::pdu_flag, so for T = PDUCacher<Y> the helpers decide exactly as for T = Y
         // (already evaluated), and K -> PDUCacher<K> is the known wrapper alias, evaluated on the default objects in stage 1
@@ -554,6 +686,9 @@ static void run_job(int job) {
     KR = k_rows();
     TR = t_rows();
     SR = s_rows();
+    OR_ = o_rows();
+    ER = e_rows();
+    NAMES = class_names();
     const int nj = A.thorough() ? NJ_THOROUGH : NJ_QUICK;
     std::vector<std::string> base = base_specs(), fac = factory_specs();
     if (job == 0) {
@@ -607,7 +742,7 @@ static void run_job(int job) {
                 if (Mon::errors) { parse_reports += Mon::errors; if (Mon::wrote) { ++rejected; return; } }   // parser memory safety is C01's subject
                 if (!p) { ++rejected; return; }
                 p->inner_pdu((Tins::PDU*)0);
-                eval_state(p, k, spec, "buffer");
+                eval_state(p, elem_of(p), spec, "buffer");
             });
         }
     }
@@ -616,17 +751,86 @@ static void run_job(int job) {
         const KRow* k = 0;
         for (auto& kr : KR) if (kr.name == sr.kname) k = &kr;
         if (!k) continue;
+        // every value without a previous look-up; the quick-tier domain also after every T was looked up on the default object
+        // (look up -> mutate -> look up again: an answer cached by the first look-up must not survive the setter)
+        std::vector<uint64_t> qv = setter_values(sr.kind, sr.bits, false);
+        std::set<uint64_t> warm_domain(qv.begin(), qv.end());
         for (uint64_t v : setter_values(sr.kind, sr.bits, A.thorough())) {
-            uint64_t i = idx++;
-            if (!mine(i)) continue;
-            if ((++ticks & 0x3ff) == 0 && deadline_reached()) { cut = true; break; }
-            g_index = i;
-            std::string spec = k->name + "@s:" + sr.sname + "=" + str(v);
-            set_case(i, "cast-table:setter-call", "chain=" + spec);
-            Tins::PDU* p = k->make();
-            try { sr.apply(p, v); } catch (std::exception&) { delete p; ++threw; continue; }
-            eval_state(p, *k, spec, "setter");
+            for (int w = 0; w < 2; ++w) {
+                if (w && !warm_domain.count(v)) continue;
+                uint64_t i = idx++;
+                if (!mine(i)) continue;
+                if ((++ticks & 0x3ff) == 0 && deadline_reached()) { cut = true; break; }
+                g_index = i;
+                std::string spec = k->name + (w ? "@S:" : "@s:") + sr.sname + "=" + str(v);
+                set_case(i, "cast-table:setter-call", "chain=" + spec);
+                Tins::PDU* p = k->make();
+                if (w) warm(p, "*");
+                try { sr.apply(p, v); } catch (std::exception&) { delete p; ++threw; continue; }
+                eval_state(p, elem_of(p), spec, w ? "setter_after_lookup" : "setter");
+            }
+            if (cut) break;
         }
+    }
+    // stage 1c: origin / history.  For every (K, B) of the generated slice table and every K onto itself: o = default K, looked up
+    // before in one of the ways {never, every T, exactly one plain T}; result = slicing/same-class copy, copy-assignment, clone of the
+    // copy, move of the copy (and o itself when B = K); every plain T on the result, oracle = its dynamic type.
+    {
+        std::vector<std::string> warms;
+        warms.push_back("-");
+        warms.push_back("*");
+        for (auto& t : TR) if (!t.wrapper) warms.push_back(t.name);
+        for (auto& orow : OR_) {
+            if (cut) break;
+            const KRow* k = 0;
+            for (auto& kr : KR) if (kr.name == orow.kname) k = &kr;
+            if (!k) continue;
+            for (int op = 0; op < 5; ++op) {
+                if (op == 4 && !orow.self) continue;
+                for (auto& w : warms) {
+                    // same-class origins: a single-T history only for the classes that take part in a slice pair (others: never / every T)
+                    if (orow.self && w != "-" && w != "*" && !A.thorough()) continue;
+                    uint64_t i = idx++;
+                    if (!mine(i)) continue;
+                    if ((++ticks & 0x3ff) == 0 && deadline_reached()) { cut = true; break; }
+                    g_index = i;
+                    std::string spec = orow.kname + "!" + orow.bname + "!" + ORIGIN_OPS[op] + "!" + w;
+                    set_case(i, "cast-table:origin", "chain=" + spec);
+                    std::unique_ptr<Tins::PDU> o(k->make()), fresh(k->make());
+                    warm(o.get(), w);
+                    Tins::PDU* r = op == 4 ? o.release() : orow.make(o.get(), fresh.get(), op);
+                    if (!r) continue;
+                    eval_state(r, elem_of(r), spec, orow.self ? "origin_same_class" : "origin_sliced");
+                }
+                if (cut) break;
+            }
+        }
+        if (job == 0) { R.count("slice_pairs_K_B", 0); for (auto& r : OR_) if (!r.self) R.count("slice_pairs_K_B"); }
+    }
+    // stage 1d: empty states (constructors handed nothing, containers set empty / cleared), alone and as innermost layer of IP/UDP/x,
+    // all seven helpers unconditionally, every T; mutations also on an object that was looked up before
+    {
+        uint64_t empties = 0, refused = 0, size0 = 0;
+        for (auto& er : ER) {
+            for (int w = 0; w < (er.create ? 1 : 2); ++w) {
+                for (int under = 0; under < 2; ++under) {
+                    uint64_t i = idx++;
+                    if (!mine(i)) continue;
+                    g_index = i;
+                    std::string el = er.kname + (w ? "@E:" : "@e:") + er.how;
+                    std::string spec = under ? "IP/UDP/" + el : el;
+                    uint64_t before = R.counters["chains"];
+                    eval_chain(spec, under ? "empty_state_under_ip_udp" : "empty_state");
+                    if (R.counters["chains"] == before) { ++refused; continue; }
+                    ++empties;
+                    if (!under) { Elem e; std::unique_ptr<Tins::PDU> p(build_elem(el, e)); if (p && p->size() == 0) ++size0; }
+                }
+            }
+        }
+        R.count("empty_state_chains", empties);
+        R.count("empty_states_refused_by_the_class", refused);
+        R.count("empty_state_objects_with_size_0", size0);
+        if (job == 0) R.count("empty_state_rows", ER.size());
     }
     R.count("buffers_rejected_by_constructor", rejected);
     R.count("setter_calls_that_threw", threw);
@@ -650,6 +854,7 @@ static void run_job(int job) {
     if (cut) { R.flags["exhaustive"] = false; R.info["cut"] = jstr("deadline reached before all chains were evaluated"); }
     for (unsigned m : g_masks) R.dist("distinct_outcomes", fnv(str(m)));
     for (uint64_t h : g_state_ids) R.dist("distinct_state_identities", h);
+    for (auto& n : g_state_classes) R.dist("state_classes", fnv(n));
     R.maxv("max_chain_length", A.thorough() ? 3 : 2);
 }
 
@@ -657,6 +862,9 @@ static int replay(const std::string& kase) {
     KR = k_rows();
     TR = t_rows();
     SR = s_rows();
+    OR_ = o_rows();
+    ER = e_rows();
+    NAMES = class_names();
     std::string chain, t;
     std::istringstream is(kase);
     std::string tok;
